@@ -57,7 +57,7 @@ def run(ctx: Ctx) -> None:
     from .c12 import passthrough_rules
     passthrough_rules(ctx, "C08.R6", only=["sync_paths", "fetch_paths"])
     # blob round trip of the siblings: what store_blob writes under a key is what has_blob / fetch_blob look at
-    mem = ctx.prog.classes.get("dds.store.MemoryStore")
+    mem = ctx.prog.cls("dds.store.MemoryStore")
     if mem is not None:
         import ast as _ast
         def attr_used(meth, store):
@@ -80,7 +80,7 @@ def run(ctx: Ctx) -> None:
         else:
             rep.bad("C08.R4", mem.qname, desc, mem.module.relpath, [f"written {sorted(w_)}, has_blob reads {sorted(r1)}, fetch_blob reads {sorted(r2)}"], "mem-blob", what="MemoryStore stores blobs where it does not look for them")
     # DBFS sibling
-    c = ctx.prog.classes.get("dds.codecs.databricks.DBFSStore")
+    c = ctx.prog.cls("dds.codecs.databricks.DBFSStore")
     if c is not None:
         m = StoreModel(ctx.prog, c, ctx._types)
         wb = [e.term for e in m.effects_of("store_blob") if e.kind in ("CP", "WRITE_INPLACE", "PUT") and mentions_sym(e.term, "KEY")]
